@@ -869,6 +869,179 @@ theorem power_off_exactly_once (c : Case) (hwf : c.wf = true) (s : Session) (m :
   omega
 
 
+/-! ## Handling steps: what reaches the caller, and that everything is still torn down -/
+
+theorem lastRaised_expectedBody (f : Faults) (k : Nat) : ∀ (ops : List Op), Ev.raise k ∈ expectedBody ops →
+    lastRaised f (expectedBody ops) none = some (.body k)
+  | [], h => by simp [expectedBody, uptoFirst] at h
+  | .raise j :: ops, h => by
+    rw [expectedBody_cons_raise] at h ⊢
+    simp only [List.mem_singleton, Ev.raise.injEq] at h
+    subst h
+    rfl
+  | .mark j :: ops, h => by
+    rw [expectedBody_cons_mark] at h ⊢
+    simp only [List.mem_cons, reduceCtorEq, false_or] at h
+    rw [lastRaised_cons]
+    exact lastRaised_expectedBody f k ops h
+  | .opened :: ops, h => by
+    rw [expectedBody_cons_opened] at h ⊢
+    simp only [List.mem_cons, reduceCtorEq, false_or] at h
+    rw [lastRaised_cons]
+    exact lastRaised_expectedBody f k ops h
+  | .closed :: ops, h => by
+    rw [expectedBody_cons_closed] at h ⊢
+    simp only [List.mem_cons, reduceCtorEq, false_or] at h
+    rw [lastRaised_cons]
+    exact lastRaised_expectedBody f k ops h
+
+/-- **The body's exception always propagates.**  Whatever the steps of the composition handle:
+    when the set-up completed and the body raised exception `k`, an exception reaches the caller
+    of `with m:` — `k` itself unless a tear-down fault that no step further out handled replaces
+    it; in particular `k` itself when no tear-down callback raises.  (`Machine.__exit__` discards
+    the verdict of its exit stack: a handling step never swallows the body's exception.) -/
+theorem body_exception_always_propagates (delay : Nat) (steps : List Step) (s : Session) (m : Mach)
+    (hrc : m.rc = 0) (hb : balanced s.body 0 = true) (k : Nat)
+    (hini : ∀ e ∈ expectedInit steps s.f, raises s.f e = false)
+    (hk : Ev.raise k ∈ expectedBody s.body) :
+    (runSession delay steps s m).1.exc = (survivingFault steps s.f).or (some (.body k))
+    ∧ (runSession delay steps s m).1.exc ≠ none
+    ∧ ((∀ e ∈ teardown s.f (expectedInit steps s.f), raises s.f e = false) →
+        (runSession delay steps s m).1.exc = some (.body k)) := by
+  obtain ⟨_, b, _⟩ := session_spec_handling delay steps s m hrc hb
+  have hown : ownExc steps s.f s.body = some (.body k) := by
+    unfold ownExc ownTrace
+    simp only [(all_not_raises_iff _ _).mpr hini, if_true, (ownCleanup_of_none steps s.f hini).1, List.append_nil]
+    rw [lastRaised_append, lastRaised_of_none s.f _ _ hini]
+    exact lastRaised_expectedBody s.f k s.body hk
+  have hexc : (runSession delay steps s m).1.exc = (survivingFault steps s.f).or (some (.body k)) := by
+    rw [b, expectedExc, hown]
+  refine ⟨hexc, ?_, ?_⟩
+  · rw [hexc]
+    cases survivingFault steps s.f <;> simp
+  · intro hq
+    rw [hexc, survivingFault, (ownCleanup_of_none steps s.f hini).2, pendingFault_of_none _ _ _ hq]
+    rfl
+
+/-- … and so does the set-up's own exception: when a step fails to come up, an exception reaches
+    the caller whatever the steps that are torn down handle -/
+theorem setup_exception_always_propagates (delay : Nat) (steps : List Step) (s : Session) (m : Mach)
+    (hrc : m.rc = 0) (hb : balanced s.body 0 = true)
+    (hini : (expectedInit steps s.f).any (raises s.f) = true) :
+    (runSession delay steps s m).1.exc ≠ none := by
+  rw [Ne, exc_iff_raised_handling delay steps s m hrc hb]
+  rintro ⟨h, _⟩
+  rw [List.any_eq_true] at hini
+  obtain ⟨e, he, hr⟩ := hini
+  have : e ∈ ownTrace steps s.f s.body := by
+    simp only [ownTrace, List.mem_append]
+    exact Or.inl (Or.inl he)
+  rw [h e this] at hr
+  cases hr
+
+/-- **A tear-down fault propagates unless a step further out handles it.**  Let `e` be a tear-down
+    callback of a started step that raises `x`, and let no callback after it (`B`: the steps
+    further out) raise.  Then `x` reaches the caller iff none of the steps further out handles;
+    otherwise the caller gets exactly what it would have got without that fault: the set-up's /
+    body's own exception (none if there is none). -/
+theorem teardown_fault_propagates_unless_handled (delay : Nat) (steps : List Step) (s : Session) (m : Mach)
+    (hrc : m.rc = 0) (hb : balanced s.body 0 = true) (A B : List Ev) (e : Ev) (x : Tag)
+    (htd : stackTeardown s.f steps = A ++ e :: B) (hx : faultTag s.f e = some x)
+    (hB : ∀ b ∈ B, raises s.f b = false) :
+    (runSession delay steps s m).1.exc
+      = if B.any (handlesEv (handlesOf steps)) then ownExc steps s.f s.body else some x := by
+  obtain ⟨_, b, _⟩ := session_spec_handling delay steps s m hrc hb
+  rw [b, expectedExc, survivingFault, htd, pendingFault_append, pendingFault_cons, hx]
+  simp only
+  rw [pendingFault_quiet _ _ _ _ hB]
+  cases B.any (handlesEv (handlesOf steps)) <;> simp
+
+/-- **Handled or not, every started step is torn down.**  Whatever the steps handle: the context
+    manager of every step that was entered is exited exactly as often as it was entered, and the
+    log (without the `powercycle_delay` waits) is the log of the same composition with no handling
+    step at all — the same callbacks in the same order. -/
+theorem handled_steps_still_torn_down (delay : Nat) (steps : List Step) (s : Session) (m : Mach)
+    (hrc : m.rc = 0) (hb : balanced s.body 0 = true) :
+    (∀ i, s.f (.enter i) = false →
+      List.count (.exit i) (runSession delay steps s m).1.trace
+        = List.count (.enter i) (runSession delay steps s m).1.trace)
+    ∧ noSleep (runSession delay steps s m).1.trace
+        = noSleep (runSession delay (steps.map fun st => { st with handles := false }) s m).1.trace := by
+  obtain ⟨a, _⟩ := session_spec_handling delay steps s m hrc hb
+  obtain ⟨a', _⟩ := session_spec_handling delay (steps.map fun st => { st with handles := false }) s m hrc hb
+  refine ⟨?_, by rw [a, a', expectedTrace_clear]⟩
+  intro i hf
+  rw [← count_noSleep _ rfl, ← count_noSleep (.enter i) rfl, a]
+  exact count_exit_expectedTrace steps s.f s.body i hf
+
+theorem specOrder_mem {mro : List Step} {s : Step} (h : s ∈ specOrder mro) : s ∈ mro := by
+  unfold specOrder at h
+  rw [List.mem_flatMap] at h
+  obtain ⟨_, _, h⟩ := h
+  exact (List.mem_filter.mp h).1
+
+theorem specSessions_eq_plain (steps : List Step) (hno : ∀ s ∈ steps, s.handles = false) :
+    ∀ (ss : List Session) (os : List SObs), specSessions steps ss os = specSessionsPlain steps ss os
+  | [], [] => rfl
+  | [], _ :: _ => rfl
+  | _ :: _, [] => rfl
+  | s :: ss, o :: os => by
+    simp only [specSessions, specSessionsPlain, specSession, specSessionPlain, expectedExc_plain steps hno,
+      specSessions_eq_plain steps hno ss os]
+
+/-- **Without handling steps the Spec is what it was**: on every composition none of whose steps
+    handles — and for EVERY observation, not only the model's — `Spec.C13` coincides with the
+    formulation "the last exception raised reaches the caller". -/
+theorem spec_eq_plain (c : Case) (o : List SObs) (hno : ∀ s ∈ c.mro, s.handles = false) :
+    Spec.C13 c o = Spec.C13plain c o := by
+  unfold Spec.C13 Spec.C13plain
+  rw [specSessions_eq_plain _ (fun s hs => hno s (specOrder_mem hs))]
+
+theorem mroFrom_no_handlers : ∀ (ks : List Kind) (i : Nat), ∀ s ∈ mroFrom [] i ks, s.handles = false
+  | [], _, s, h => by simp [mroFrom] at h
+  | k :: ks, i, s, h => by
+    simp only [mroFrom, List.mem_cons] at h
+    rcases h with rfl | h
+    · rfl
+    · exact mroFrom_no_handlers ks (i + 1) s h
+
+/-- in particular for every case written without `handlers` (all cases of the former domain) -/
+theorem spec_eq_plain_of_no_handlers (c : Case) (o : List SObs) (h : c.handlers = []) :
+    Spec.C13 c o = Spec.C13plain c o := by
+  apply spec_eq_plain
+  unfold Case.mro
+  rw [h]
+  exact mroFrom_no_handlers c.bases 0
+
+/-- the step table of a case says of every step what the step itself says -/
+theorem handlesOf_mro (c : Case) : ∀ s ∈ c.mro, handlesOf c.mro s.id = s.handles := by
+  have key : ∀ (ks : List Kind) (i : Nat), ∀ s ∈ mroFrom c.handlers i ks, s.handles = c.handlers.contains s.id := by
+    intro ks
+    induction ks with
+    | nil => intro i s h; simp [mroFrom] at h
+    | cons k ks ih =>
+      intro i s h
+      simp only [mroFrom, List.mem_cons] at h
+      rcases h with rfl | h
+      · rfl
+      · exact ih (i + 1) s h
+  intro s hs
+  have hs' := key c.bases 0 s hs
+  unfold handlesOf
+  cases hh : s.handles with
+  | true =>
+    rw [List.any_eq_true]
+    exact ⟨s, hs, by simp [hh]⟩
+  | false =>
+    rw [List.any_eq_false]
+    intro s' hs''
+    have := key c.bases 0 s' hs''
+    by_cases hid : s'.id = s.id
+    · rw [hid, ← hs', hh] at this
+      simp [this]
+    · simp [hid]
+
+
 /-- **powercycle_delay.**  When the class has switched power off at tick `t`, the next `poweron`
     happens at `max now (t + delay)`: never earlier than `delay` ticks after the last completed
     `poweroff`, and without waiting longer than necessary. -/
@@ -916,5 +1089,71 @@ example : Spec.C13 { ex1 with sessions := [] }
 example : Spec.C13 ex1 ((run ex1).map fun o => { o with exc := none }) = false := by decide
 example : Spec.C13 ex1 ((run ex1).map fun o => { o with rc := 1 }) = false := by decide
 example : Spec.C13 ex1 ((run ex1).dropLast ++ [⟨[], none, 0⟩]) = false := by decide
+
+/-! ### with handling steps -/
+
+/-- `ex1` with the first pre-connect step (0) and the second initialiser (4) handling:
+    session 1: the body raises and the exit of the shell (5) raises — handled by step 4, further
+    out: the BODY's exception reaches the caller;
+    session 2: the exit of the handling step 0 itself raises — nothing further out: it propagates;
+    session 3: `poweron` and the `poweroff` in its `finally` raise, then the exit of step 2 raises —
+    handled by step 0: the set-up's own exception (`off 3`) reaches the caller;
+    session 4: only the exit of step 2 raises — handled by step 0: nothing reaches the caller. -/
+def ex2 : Case :=
+  { ex1 with
+    handlers := [0, 4],
+    sessions := [{ faults := [.exit 5], body := [.mark 1, .raise 1] },
+                 { faults := [.exit 0], body := [.opened, .closed] },
+                 { faults := [.on 3, .off 3, .exit 2], body := [.raise 2] },
+                 { faults := [.exit 2], body := [] }] }
+
+example : ex2.wf = true := by decide
+example : (run ex2).map (·.exc) = [some (.body 1), some (.exit 0), some (.off 3), none, none] := by decide
+example : ((run ex2).map (·.trace))[0]? = some [.enter 0, .enter 1, .enter 2, .check 3, .on 3, .enter 4, .enter 5,
+    .enter 6, .hook 7, .mark 1, .raise 1, .exit 6, .exit 5, .exit 4, .off 3, .exit 2, .exit 1, .exit 0] := by decide
+example : Spec.C13 ex2 (run ex2) = true := run_spec ex2 (by decide)
+/-- the Spec has changed where steps handle (the former formulation rejects the model's — and the
+    implementation's — behaviour), and only there -/
+example : Spec.C13plain ex2 (run ex2) = false := by decide
+example : Spec.C13plain ex1 (run ex1) = true := by rw [← spec_eq_plain_of_no_handlers ex1 _ rfl]; exact run_spec ex1 (by decide)
+/-- the Spec rejects a body exception swallowed by a handling step (what `Machine.__exit__` would do
+    if it returned the verdict of its exit stack), a handled tear-down fault that reaches the caller
+    all the same, and a handling step that is not torn down -/
+example : Spec.C13 ex2 ((run ex2).set 0 { (run ex2)[0]! with exc := none }) = false := by decide
+example : Spec.C13 ex2 ((run ex2).set 3 { (run ex2)[3]! with exc := some (.exit 2) }) = false := by decide
+example : Spec.C13 ex2 ((run ex2).map fun o => { o with trace := o.trace.filter (· != .exit 4) }) = false := by decide
+/-- a lab-host clone that handles is outside the domain -/
+example : ({ bases := [.host, .conn, .shell], delay := 0, sessions := [], handlers := [0] } : Case).wf = false := by decide
+
+/-- hypotheses of `body_exception_always_propagates` (session 1 of `ex2`): satisfiable, and the
+    tear-down does raise there — the conclusion is about a handled fault -/
+example : (∀ e ∈ expectedInit (machSteps ex2.mro) (ex2.sessions[0]!).f, raises (ex2.sessions[0]!).f e = false)
+    ∧ Ev.raise 1 ∈ expectedBody (ex2.sessions[0]!).body
+    ∧ survivingFault (machSteps ex2.mro) (ex2.sessions[0]!).f = none
+    ∧ (teardown (ex2.sessions[0]!).f (expectedInit (machSteps ex2.mro) (ex2.sessions[0]!).f)).any
+        (raises (ex2.sessions[0]!).f) = true := by decide
+
+/-- hypotheses of `teardown_fault_propagates_unless_handled`: satisfiable in both branches
+    (session 1: the fault of `exit 5` with the handling step 4 further out; session 2: the fault of
+    `exit 0` with nothing further out) -/
+example : stackTeardown (ex2.sessions[0]!).f (machSteps ex2.mro)
+      = [.exit 6] ++ .exit 5 :: [.exit 4, .off 3, .exit 2, .exit 1, .exit 0]
+    ∧ faultTag (ex2.sessions[0]!).f (.exit 5) = some (.exit 5)
+    ∧ ([Ev.exit 4, .off 3, .exit 2, .exit 1, .exit 0].any (handlesEv (handlesOf (machSteps ex2.mro)))) = true := by decide
+example : stackTeardown (ex2.sessions[1]!).f (machSteps ex2.mro)
+      = [.exit 6, .exit 5, .exit 4, .off 3, .exit 2, .exit 1] ++ .exit 0 :: []
+    ∧ faultTag (ex2.sessions[1]!).f (.exit 0) = some (.exit 0) := by decide
+
+/-- the console connector: `connect()` (2) fails, the exit of the lab-host clone (1) raises inside
+    `ConsoleConnector._connect` — the set-up's own exception, which the handling step 0 further out
+    cannot take away from the caller -/
+def ex3 : Case :=
+  { bases := [.pre, .host, .conn, .shell], delay := 0, handlers := [0],
+    sessions := [{ faults := [.enter 2, .exit 1] }] }
+
+example : ex3.wf = true := by decide
+example : (run ex3).map (·.exc) = [some (.exit 1), none] := by decide
+example : ownCleanup (ex3.sessions[0]!).f (machSteps ex3.mro) = [.exit 1]
+    ∧ stackTeardown (ex3.sessions[0]!).f (machSteps ex3.mro) = [.exit 0] := by decide
 
 end C13
